@@ -31,7 +31,10 @@ try:
             print(rows[-1], flush=True)
             continue
         caught = []
-        for p in (props or allprops):
+        own = name.split('-')[0]
+        todo = props or ([own] + ([p for p in allprops if p != own] if os.environ.get('SEED_FULL') else
+                                    [p for p in ('C01',) if p != own]))
+        for p in todo:
             q = subprocess.run([os.path.join(SNAP, 'check'), p, '--tier', os.environ.get('SEED_TIER', 'quick')],
                                capture_output=True, cwd=SNAP,
                                env=dict(os.environ, FB_REPO=WT, VERIF_SEED=os.environ.get('VERIF_SEED', '0')))
